@@ -50,13 +50,25 @@ def base_key(obl_name):
     return f"{head}/{kind}"
 
 
+def spread(it, limit):
+    """The first `limit` entries of a pool in an order that covers it evenly (0, n/2, n/4, 3n/4, ...): pools enumerate simple
+    elements first, and taking a prefix kept missing the entries that matter (tuple items, declared properties, nested values)."""
+    lst = list(itertools.islice(it, limit))
+    n = len(lst)
+    if n <= 2:
+        return lst
+    bits = max(1, (n - 1).bit_length())
+    order = sorted(range(n), key=lambda i: int(format(i, f"0{bits}b")[::-1], 2))
+    return [lst[i] for i in order]
+
+
 def witness_search(contract, clause_kinds=None, seed=0, limit=3000, budget=20.0):
     """Run the real function under the runtime contract over its pool; first native violation wins."""
     t0 = time.time()
     ns = None
     n = 0
     try:
-        for fn, args in pools.pool(contract, seed=seed, limit=limit):
+        for fn, args in spread(pools.pool(contract, seed=seed, limit=limit), limit):
             n += 1
             try:
                 res = monitor.check_call(contract, fn, args)
@@ -188,7 +200,7 @@ def run(runobj, spec, timeout=10.0, only=None, verbose=False):
         n_eval = n_skip = 0
         first_bad = None
         try:
-            for fn, args in pools.pool(c, seed=runobj.seed, limit=per * 6):
+            for fn, args in spread(pools.pool(c, seed=runobj.seed, limit=max(per * 6, 1500)), max(per * 6, 1500)):
                 try:
                     r = monitor.check_call(c, fn, args)
                 except Exception:
